@@ -43,7 +43,7 @@ import udpcl.config as uconfig
 PENDING_FINDINGS = []
 
 BIG = 3000   # bundles longer than this go to their own (small) shards of Coq evaluation
-SHARDS = 8   # coqc processes per suite (each pays the start-up of loading the libraries)
+SHARDS = 6   # coqc processes per suite (each pays the start-up of loading the libraries)
 FULL = 200   # datagrams of bundles up to this length are compared octet for octet, longer ones by (length, first 24 octets, digest)
 
 PEERS = {1: ('10.0.0.1', 4556), 2: ('10.0.0.1', 4557), 3: ('10.0.0.2', 4556)}
@@ -149,14 +149,26 @@ def mk_agent(mtu):
     return uagent.Agent(cfg, bus_kwargs=dict(conn=cfg._bus_conn, object_path='/udpcl'))
 
 
-def real_send(mtu, xid, data):
+def real_send(mtu, xid, data, agent=None):
     ''' Octets of every datagram the agent yields for one send request, under
     a deterministic step limit (lines executed inside _send_transfer), because
     the segment list is built by a loop that does not end for an infeasible
-    MTU.  :return: (datagrams, terminated) '''
-    agent = mk_agent(mtu)
+    MTU.  ``agent``: a long-lived agent to send on (default: a fresh one);
+    ``xid`` None: the id is assigned by the agent itself (_add_tx_item, the
+    function send_bundle_data ends in), and returned.
+    :return: (datagrams, terminated) or, for xid None, (datagrams, terminated, assigned id) '''
+    if agent is None:
+        agent = mk_agent(mtu)
+    assigned = xid is None
     item = uagent.BundleItem(address='10.0.0.9', port=4556, file=BytesIO(data), transfer_id=xid,
                              total_length=len(data))
+    if assigned:
+        # the real id counter; the queued item is taken back so that no socket is ever opened
+        agent._add_tx_item(item)
+        if item in agent._tx_queue:
+            agent._tx_queue.remove(item)
+        GLib.CTX.reset()
+        xid = item.transfer_id
     code = uagent.Agent._send_transfer.__code__
     budget = [40 * (len(data) + 10)]
 
@@ -183,6 +195,8 @@ def real_send(mtu, xid, data):
         done = False
     finally:
         sys.settrace(old)
+    if assigned:
+        return (out, done, xid)
     return (out, done)
 
 
@@ -436,14 +450,14 @@ def gen_send_cases(chk, scale=1):
     mtus = [8, 9, 10, 11, 12, 15, 20, 23, 24, 25, 26, 30, 33, 34, 35, 36, 40, 48, 64, 100, 128, 255, 256, 257,
             270, 300, 576, 1280, 1400, 1500]
     if quick:
-        mtus = [8, 10, 12, 24, 25, 26, 35, 36, 40, 64, 256, 257, 300, 1400]
+        mtus = [8, 12, 24, 25, 36, 40, 256, 300, 1400]
     for mtu in mtus:
         around(mtu, 0)
-        if not quick or mtu in (12, 36, 40, 300):
+        if not quick or mtu in (36, 300):
             around(mtu, rng.choice(XIDS))
     for xid in XIDS:
-        for mtu in (20, 40, 300):
-            for length in (mtu - 1, mtu, mtu + 7, 2 * mtu, 300, 700):
+        for mtu in ((40, 300) if quick else (20, 40, 300)):
+            for length in ((mtu - 1, mtu, 2 * mtu, 700) if quick else (mtu - 1, mtu, mtu + 7, 2 * mtu, 300, 700)):
                 add(mtu, length, xid)
     # long bundles: total / offset heads of 3 and 5 octets
     longs = [(1400, 65535), (1400, 65536), (65536, 65536), (65535, 65536), (40000, 65537), (200, 9000)]
@@ -456,11 +470,66 @@ def gen_send_cases(chk, scale=1):
             add(mtu, length, 2 ** 32)
     for length in (0, 1, 23, 24, 255, 256, 1500, 65535, 65536, 100000):
         add(None, length, 3)
-    count = (80 if quick else 2500) * scale
+    count = (40 if quick else 2500) * scale
     for _ in range(count):
         mtu = rng.choice([rng.randrange(8, 40), rng.randrange(8, 300), rng.randrange(8, 2000)])
         add(mtu, rng.choice([rng.randrange(0, 3 * mtu), rng.randrange(0, 40 * mtu)]) % 12000)
     return cases
+
+
+def gen_histories(chk, scale=1):
+    ''' [(mtu, start id | None, [(seed, length)])]: MANY sends through ONE agent object, ids from
+    the agent's own counter (preset near a head-size boundary via the _tx_id attribute when start id is
+    not None), bundle lengths mixing the head-size classes of the total, including lengths whose full
+    segments are exactly MTU octets long (no slack: offset and fragment-length heads as long as the
+    head of the total). '''
+    rng = chk.rng
+    quick = chk.quick() and scale == 1
+    out = []
+
+    def hist(mtu, start, count, lengths):
+        steps = []
+        for num in range(count):
+            length = lengths[num % len(lengths)] if num < 2 * len(lengths) else rng.choice(lengths)
+            steps.append((rng.randrange(1, 2 ** 31), length))
+        # every send of the history must be feasible for every id it can get
+        top = (start or 0) + count
+        steps = [(seed, ln) for (seed, ln) in steps if ln < mtu or feasible(mtu, top, ln)]
+        out.append((mtu, start, steps))
+
+    hist(1400, None, 34, [2800, 4000, 300, 2800, 2900])            # ids 0..33 across 23/24, full segments exactly MTU
+    hist(40, None, 32, [100, 100, 39, 120, 23, 90])                # small MTU, tight at 100 (heads of 2 octets)
+    hist(1400, 250, 8, [4000, 2800])                               # 255/256
+    hist(300, 65530, 12, [900, 900, 600])                          # 65535/65536
+    hist(1400, 65533, 6, [2800, 2800])
+    hist(300, 2 ** 32 - 4, 8, [900, 900])                          # 2^32
+    hist(300, 18, 14, [900, 100, 900, 600, 300])                   # mixing classes, tight at 900
+    hist(300, 252, 8, [900, 900, 24, 255, 256])
+    if not quick:
+        hist(70000, 20, 8, [200000, 200000])                       # heads of 5 octets, tight
+        hist(1400, None, 300, [4000, 100, 70000, 2900, 1399, 1400, 1401])
+        hist(36, None, 70, [120, 60, 35, 36, 37, 300])
+        hist(9000, 65500, 80, [70000, 20000, 9000, 8999])
+        for _ in range(20 * scale):
+            mtu = rng.choice([30, 40, 64, 300, 1400])
+            hist(mtu, rng.choice([None, 20, 250, 65530]), 12, [rng.randrange(mtu, 5 * mtu) for _ in range(3)] + [mtu - 1])
+    else:
+        for _ in range(3 * scale):
+            mtu = rng.choice([40, 64, 300])
+            hist(mtu, rng.choice([None, 20, 250]), 8, [rng.randrange(mtu, 4 * mtu) for _ in range(2)] + [mtu - 1])
+    return out
+
+
+def run_history(mtu, start, steps):
+    ''' All sends of one history on one agent: [(assigned id, datagrams, terminated)]. '''
+    agent = mk_agent(mtu)
+    if start is not None:
+        agent._tx_id = start
+    res = []
+    for (seed, length) in steps:
+        (dgrams, term, xid) = real_send(mtu, None, gen_data(seed, length), agent=agent)
+        res.append((xid, dgrams, term))
+    return res
 
 
 def expand_orders(rng, count, limit):
@@ -506,7 +575,7 @@ def gen_xfer_cases(chk, scale=1):
     for nseg in (2, 3, 4, 5):
         for rep in range((2 if quick else 6) * scale):
             xfer = pick_xfer(rng, nseg, tight=(rep == 0))
-            limit = 30 if (quick and nseg == 5 and rep > 0) else None
+            limit = 24 if (quick and nseg == 5 and rep > 0) else None
             for order in expand_orders(rng, nseg, limit):
                 cases.append(([xfer], [(1, 0, dix) for dix in order], 'perm'))
     # (a bundle that fits is one datagram that must itself be a CBOR array to be queued: suites multi / recv)
@@ -686,6 +755,19 @@ class Runner(object):
                   dict(suite='send', case=list(case)))
         return why
 
+    def check_history(self, mtu, start, steps, res):
+        ''' the send oracle on every send of a history; the replay is the whole history '''
+        first = None
+        for (pos, ((seed, length), (xid, dgrams, term))) in enumerate(zip(steps, res)):
+            got = oracle_send(mtu, xid, gen_data(seed, length), dgrams, term)
+            if got is not None and first is None:
+                (why, klass) = got
+                first = 'send #%d of the history (id %d, %d octets): %s' % (pos, xid, length, why)
+                self.fail('C13 / send-history / %s' % klass,
+                          'one agent, mtu=%s, ids from %s: %s' % (mtu, 'its own counter' if start is None else start, first),
+                          dict(suite='history', mtu=mtu, start=start, steps=[list(st) for st in steps], failing_send=pos))
+        return first
+
     def impl_xfers(self, xfers, arrival):
         lists = []
         for (mtu, xid, seed, length) in xfers:
@@ -746,6 +828,23 @@ def run_all(chk):
         chk.count('send_mtu', 'none' if mtu is None else ('<=24' if mtu <= 24 else ('25-256' if mtu <= 256 else ('257-65535' if mtu < 65536 else '>=65536'))))
         if mtu is not None and nseg >= 2:
             chk.count('send_boundary', 'largest datagram == mtu' if tight else 'largest datagram < mtu')
+    # histories: many sends on one agent; each send is compared with the (stateless) model under its real id
+    hist_pos = []
+    for (mtu, start, steps) in gen_histories(chk):
+        res = run_history(mtu, start, steps)
+        run.check_history(mtu, start, steps, res)
+        ids = [xid for (xid, _d, _t) in res]
+        chk.count('history_sends', len(steps))
+        for ((seed, length), (xid, dgrams, term)) in zip(steps, res):
+            hist_pos.append(len(send_cases))
+            send_cases.append((mtu, xid, seed, length))
+            send_impl.append((dgrams, term))
+            chk.case(('history', mtu, start, xid, seed, length), nontrivial=len(dgrams) >= 2,
+                     sample=samp(chk, 3, dict(suite='send-history', mtu=mtu, first_id=ids[0], last_id=ids[-1], this_id=xid,
+                                              length=length, sizes=[len(d) for d in dgrams][:5])) if xid in (24, 256, 65536) else None)
+            chk.count('history_id_head', spec_head_len(xid))
+            if len(dgrams) >= 2:
+                chk.count('history_boundary', 'largest datagram == mtu' if max(len(d) for d in dgrams) == mtu else 'largest datagram < mtu')
     run.phase('send:real')
     # one evaluation for all send cases; the long bundles are spread evenly over the shards
     small = [pos for (pos, case) in enumerate(send_cases) if case[3] <= BIG]
@@ -757,13 +856,15 @@ def run_all(chk):
     model_send = chk.coq_eval('send', ['Model.Udpcl'], [c_send(*send_cases[pos]) for pos in order], 'run_send_view',
                               chunk=max(30, -(-len(order) // SHARDS)))
     run.phase('send:coq(%d, %d long)' % (len(order), len(large)))
+    hist_set = set(hist_pos)
     for (pos, mod) in zip(order, model_send):
         (dgrams, term) = send_impl[pos]
         full = send_cases[pos][3] <= FULL
         got = [(ent[0], bytes(ent[1]), ent[2]) for ent in mod[0]] if mod else None
         want = [(len(d), d if full else d[:24], digest(d)) for d in dgrams] if term else None
         if got != want:
-            run.note_mismatch('send', 'mtu=%s xid=%d len=%d: datagrams differ (model %s, real %s)' % (
+            run.note_mismatch('send', '%smtu=%s xid=%d len=%d: datagrams differ (model %s, real %s)' % (
+                'in a history of sends on one agent: ' if pos in hist_set else '',
                 send_cases[pos][0], send_cases[pos][1], send_cases[pos][3],
                 'never ends' if got is None else '%d datagram(s)' % len(got),
                 'never ends' if want is None else '%d datagram(s)' % len(want)))
@@ -858,6 +959,9 @@ def search_more(chk):
         (dgrams, term) = real_send(case[0], case[1], gen_data(case[2], case[3]))
         if run.check_send(case, dgrams, term):
             found = True
+    for (mtu, start, steps) in gen_histories(chk, scale=10):
+        if run.check_history(mtu, start, steps, run_history(mtu, start, steps)):
+            found = True
     if found:
         return True
     for (xfers, arrival, _kind) in gen_xfer_cases(chk, scale=10):
@@ -884,6 +988,13 @@ def replay(chk, path):
         print('replay send mtu=%s xid=%d seed=%d len=%d -> %s, %d datagram(s) of sizes %s' % (
             case + ('finished' if term else 'DID NOT FINISH', len(dgrams), [len(d) for d in dgrams][:10])))
         why = run.check_send(case, dgrams, term)
+    elif suite == 'history':
+        steps = [tuple(st) for st in obj['steps']]
+        res = run_history(obj['mtu'], obj['start'], steps)
+        for (pos, ((seed, length), (xid, dgrams, term))) in enumerate(zip(steps, res)):
+            print('replay history send #%d id=%d len=%d -> %s, sizes %s (mtu %s)' % (
+                pos, xid, length, 'finished' if term else 'DID NOT FINISH', [len(d) for d in dgrams][:6], obj['mtu']))
+        why = run.check_history(obj['mtu'], obj['start'], steps, res)
     elif suite == 'xfers':
         xfers = [tuple(x) for x in obj['xfers']]
         arrival = [tuple(a) for a in obj['arrival']]
@@ -944,7 +1055,10 @@ def main():
     chk.coverage['translator'] = dict(ok=tr_ok, error=tr_err)
     chk.coverage['phase_seconds'] = dict(coq_props=t_props, **(run.phases if run is not None else {}))
     chk.finish(
-        rule=('send: grid of MTU x bundle length x transfer id at every boundary of the fit test (mtu-2..mtu+1), of the segment size '
+        rule=('send-history: MANY sends through ONE agent object with ids from the agent\'s own counter (0..33 across 23/24; counter preset to 250, '
+              '65530, 2^32-4 to cross 255/256, 65535/65536, 2^32), bundle lengths mixing the head-size classes and including the no-slack '
+              'lengths, each send judged by the datagram-size/tiling oracle and compared with the stateless model under its real id; '
+              'send: grid of MTU x bundle length x transfer id at every boundary of the fit test (mtu-2..mtu+1), of the segment size '
               '(k*remain-1,0,+1 for each head-size class of the total), of offsets / fragment lengths crossing 23/24 and 255/256, '
               'totals and MTUs across 65535/65536, ids across every head size up to 2^64-1, MTU none, random; infeasible MTUs '
               '(3+|id|+3|total| >= mtu with a bundle that does not fit) are never run; recv: the real sender\'s datagrams through the '
@@ -970,7 +1084,9 @@ def main():
                      'cbor2 6.1.4 C encoder/decoder is mirrored by Lib/Cbor.v (shortest heads; subset without floats, indefinite-length strings/maps, tag semantics) and validated by correspondence only',
                      'translator translate/targets/udpclbudget.py is trusted; bounded by the octet-for-octet differential run of every translated definition through send_transfer',
                      'the receive function is driven directly (_recv_datagram with a stand-in socket object or None and a Conversation), sockets and DTLS are outside the model',
-                     'item.total_length equals len(data) (what _add_tx_item sets)'])
+                     'item.total_length equals len(data) (what _add_tx_item sets)',
+                     'send histories drive the real id counter through Agent._add_tx_item (where send_bundle_data ends) and take the item back from _tx_queue so no socket is opened; '
+                     'the counter is preset near 255/256, 65535/65536 and 2^32 through the private attribute _tx_id (sending 65536 bundles first is not affordable)'])
 
 
 if __name__ == '__main__':
